@@ -31,6 +31,10 @@ TYPES = ["bool", "int", "object", "str"]
 PYTYPE = {"bool": bool, "int": int, "object": object, "str": str}
 
 KNOWN_TEXT = {
+    "C07-classmethod-override-unchecked": "an override of a classmethod by a classmethod is never reported (incompatible_override), whatever the two signatures: "
+    "class A: @classmethod def m(cls, c, f) / class C(A): @classmethod def m(cls, d, b) is accepted, A.m(c=1, f=2) binds, C.m(c=1, f=2) raises TypeError",
+    "C07-staticmethod-override-first-param": "staticmethod overrides are compared after bind_self strips the FIRST parameter of both functions (it is not a self): "
+    "class A: @staticmethod def m(**f) / class C(A): @staticmethod def m(e) is accepted, A.m() binds, C.m() raises TypeError",
     "C07-double-fill": "a positional-or-keyword parameter of the accepted callable can be filled positionally and again by keyword by a call the expected signature binds: "
     "(a, /, **b) <- (a, **b) with f(1, a=2); (a, /, *, b) <- (b) and (*a, b) <- (b, *a) with f(1, b=2); (x, /, n) <- (n, *a, **k) with f(1, n=2)",
 }
@@ -285,7 +289,14 @@ def run_protocols(pairs):
 
     lines = ["from typing import Protocol"]
     for i, (e, a) in enumerate(pairs):
-        lines += [f"class P{i}(Protocol):", f"    def m({mh(e)}): ...", f"class I{i}:", f"    def m({mh(a)}): pass", f"def use{i}(p: P{i}): pass"]
+        lines += [f"class P{i}(Protocol):", f"    def m({mh(e)}): ..."]
+        if i % 3 == 1:  # the method is inherited from a parent class
+            lines += [f"class IB{i}:", f"    def m({mh(a)}): pass", f"class I{i}(IB{i}): pass"]
+        elif i % 3 == 2:  # ... from a grandparent, and the protocol itself extends another protocol
+            lines += [f"class IG{i}:", f"    def m({mh(a)}): pass", f"class IB{i}(IG{i}): pass", f"class I{i}(IB{i}): pass"]
+        else:
+            lines += [f"class I{i}:", f"    def m({mh(a)}): pass"]
+        lines += [f"def use{i}(p: P{i}): pass"]
     lines.append("def run():")
     call_line = {}
     for i in range(len(pairs)):
@@ -373,6 +384,124 @@ def impl_overloads(es, as_):
     return not isinstance(mk(es).can_assign(mk(as_), I["ck"]), CanAssignError)
 
 
+# ---------------------------------------------------------------------------
+# class hierarchies: the override must be compatible with EVERY definition in the MRO
+
+HIER_SHAPES = ["single", "two_bases", "second_base_only", "diamond", "grandparent", "parent_and_grandparent", "classmethod", "staticmethod"]
+
+
+def _mh(sig, first="self"):
+    h = B.header(sig).replace("('d', '", "('d_', '")
+    if first is None:
+        return h
+    return first + (", " + h if h else "")
+
+
+def hierarchy_source(shape, i, bases_sigs, a):
+    """-> (lines, index of the line (0-based, within lines) of the overriding def)"""
+    n = f"{i}"
+    L = []
+
+    def cls(name, parents, sig, deco=None, first="self"):
+        L.append(f"class {name}({', '.join(parents)}):" if parents else f"class {name}:")
+        if sig is None:
+            L.append("    pass")
+            return None
+        if deco:
+            L.append(f"    @{deco}")
+        L.append(f"    def m({_mh(sig, first)}): return locals()")
+        return len(L) - 1
+
+    if shape == "single":
+        cls(f"A{n}", [], bases_sigs[0])
+        at = cls(f"C{n}", [f"A{n}"], a)
+    elif shape == "two_bases":
+        cls(f"A{n}", [], bases_sigs[0])
+        cls(f"B{n}", [], bases_sigs[1])
+        at = cls(f"C{n}", [f"A{n}", f"B{n}"], a)
+    elif shape == "second_base_only":
+        cls(f"A{n}", [], None)
+        cls(f"B{n}", [], bases_sigs[0])
+        at = cls(f"C{n}", [f"A{n}", f"B{n}"], a)
+    elif shape == "diamond":
+        cls(f"T{n}", [], bases_sigs[0])
+        cls(f"A{n}", [f"T{n}"], bases_sigs[1])
+        cls(f"B{n}", [f"T{n}"], bases_sigs[2])
+        at = cls(f"C{n}", [f"A{n}", f"B{n}"], a)
+    elif shape == "grandparent":
+        cls(f"T{n}", [], bases_sigs[0])
+        cls(f"A{n}", [f"T{n}"], None)
+        at = cls(f"C{n}", [f"A{n}"], a)
+    elif shape == "parent_and_grandparent":
+        cls(f"T{n}", [], bases_sigs[0])
+        cls(f"A{n}", [f"T{n}"], bases_sigs[1])
+        at = cls(f"C{n}", [f"A{n}"], a)
+    elif shape == "classmethod":
+        cls(f"A{n}", [], bases_sigs[0], "classmethod", "cls")
+        at = cls(f"C{n}", [f"A{n}"], a, "classmethod", "cls")
+    elif shape == "staticmethod":
+        cls(f"A{n}", [], bases_sigs[0], "staticmethod", None)
+        at = cls(f"C{n}", [f"A{n}"], a, "staticmethod", None)
+    else:
+        raise ValueError(shape)
+    return L, at
+
+
+def n_bases(shape):
+    return {"two_bases": 2, "diamond": 3, "parent_and_grandparent": 2}.get(shape, 1)
+
+
+def gen_hierarchies(rng, n):
+    out = []
+    for j in range(n):
+        shape = HIER_SHAPES[j % len(HIER_SHAPES)]
+        e0 = B.random_sig(rng, 3)
+        if shape == "staticmethod" and not e0:
+            e0 = [["a", POK, 0]]
+        bases = [e0]
+        for _ in range(n_bases(shape) - 1):
+            bases.append((mutate_sig(rng, e0) if rng.random() < 0.8 else None) or B.random_sig(rng, 3))
+        src = rng.choice(bases)
+        a = (mutate_sig(rng, src) if rng.random() < 0.75 else None) or src
+        out.append((shape, bases, a))
+    return out
+
+
+def run_hierarchies(cases, batch=100):
+    """-> per case (accepted by pyanalyze: no incompatible_override on the overriding def)"""
+    import contextlib
+    import io
+
+    from pyanalyze.error_code import ErrorCode
+    from pyanalyze.test_name_check_visitor import TestNameCheckVisitorBase
+
+    verdicts = []
+    other = {}
+    for b0 in range(0, len(cases), batch):
+        chunk = cases[b0 : b0 + batch]
+        lines = []
+        def_line = {}
+        for i, (shape, bases, a) in enumerate(chunk):
+            L, at = hierarchy_source(shape, i, bases, a)
+            def_line[len(lines) + at + 1] = i
+            # a decorator line precedes the def: diagnostics may be reported on either line
+            def_line.setdefault(len(lines) + at, i) if shape in ("classmethod", "staticmethod") else None
+            lines += L
+        buf = io.StringIO()
+        with contextlib.redirect_stderr(buf), contextlib.redirect_stdout(buf):
+            errs = TestNameCheckVisitorBase()._run_str("\n".join(lines) + "\n", fail_after_first=False)
+        v = [True] * len(chunk)
+        for er in errs:
+            i = def_line.get(er["lineno"])
+            if i is not None and er["code"] is ErrorCode.incompatible_override:
+                v[i] = False
+            elif er["code"].name not in ("method_first_arg", "incompatible_override"):
+                # incompatible_override on other lines = intermediate classes of the hierarchy overriding their own bases
+                other[er["code"].name] = other.get(er["code"].name, 0) + 1
+        verdicts += v
+    return verdicts, other
+
+
 def enc_pair(e, a):
     return "C" + B.enc_sig(e) + "|" + B.enc_sig(a)
 
@@ -442,11 +571,14 @@ def run(tier: str, replay: str | None = None):
 
     # ---- cases
     pairs = []
+    replay_hier = None
     typed = []  # (e, te, re, a, ta, ra)
     if replay:
         r = json.loads(Path(replay).read_text())
         c = r["input"]
-        if "te" in c:
+        if "hierarchy" in c:
+            replay_hier = [(c["hierarchy"], c["bases"], c["a"])]
+        elif "te" in c:
             typed.append((c["e"], c["te"], c["re"], c["a"], c["ta"], c["ra"]))
         else:
             pairs.append((c["e"], c["a"]))
@@ -654,6 +786,62 @@ def run(tier: str, replay: str | None = None):
             if mk != acc:
                 ov2_corr.append({"input": {"es": es, "as": as_, "text": " | ".join(B.header(x) for x in es) + "  <-  " + " | ".join(B.header(x) for x in as_)}, "model": mk, "impl": acc})
 
+    # ---- class hierarchies: the override against every definition in the MRO
+    hier_bad, hier_corr = [], []
+    hier_hist = {}
+    hier_other = {}
+    n_hier = 0
+    if (pairs or replay_hier) and exe is not None:
+        hcases = replay_hier or gen_hierarchies(rng, 800 if not thorough else 5000)
+        hv, hier_other = run_hierarchies(hcases)
+        hlines = [enc_pair(e, a) for shape, bases, a in hcases for e in bases]
+        houts = iter(lib.ocaml_run(exe, hlines))
+        for (shape, bases, a), acc in zip(hcases, hv):
+            n_hier += 1
+            h = hier_hist.setdefault(shape, {"cases": 0, "accepted": 0})
+            h["cases"] += 1
+            h["accepted"] += int(acc)
+            ms = [parse_model(next(houts)) for _ in bases]
+            directs = [impl_accepts(B.impl_signature(e), B.impl_signature(a)) for e in bases]
+            src, _ = hierarchy_source(shape, 0, bases, a)
+            payload = {"hierarchy": shape, "bases": bases, "a": a, "text": " / ".join(x.strip() for x in src if x.strip().startswith(("class", "def", "@")))}
+            special = shape in ("classmethod", "staticmethod")
+            if special:
+                # what the known mechanism predicts: classmethod overrides are never reported; staticmethod
+                # overrides are compared after bind_self stripped the first parameter of both sides
+                if shape == "classmethod":
+                    predicted = True
+                else:
+                    I = B._impl()
+                    from pyanalyze.value import CanAssignError as _CAE
+
+                    bb = B.impl_signature(bases[0]).bind_self(ctx=I["ck"])
+                    cb = B.impl_signature(a).bind_self(ctx=I["ck"])
+                    predicted = True if bb is None else False if cb is None else not isinstance(bb.can_assign(cb, I["ck"]), _CAE)
+                if acc != predicted:
+                    hier_corr.append({"input": payload, "override_check_accepts": acc, "predicted by the known mechanism": predicted})
+            elif acc != all(directs):
+                hier_corr.append({"input": payload, "override_check_accepts": acc, "Signature.can_assign per base": directs})
+            if acc:
+                fa = B.real_function(a)
+                for e, m in zip(bases, ms):
+                    bad = find_unsound_call(B.real_function(e), fa, e, a)
+                    if bad is not None:
+                        if special and not (m[0] and not m[2]):
+                            # Signature.can_assign itself would have rejected (or it is the double-fill class):
+                            # the unsound acceptance is the override route's, under the kind's guard
+                            fid = "C07-classmethod-override-unchecked" if shape == "classmethod" else "C07-staticmethod-override-first-param"
+                            if m[0] and m[2]:
+                                fid = "C07-double-fill"
+                            hist["known"][fid] = hist["known"].get(fid, 0) + 1
+                            rep.known(fid, KNOWN_TEXT[fid])
+                        elif m[0] and m[2]:
+                            hist["known"]["C07-double-fill"] = hist["known"].get("C07-double-fill", 0) + 1
+                            rep.known("C07-double-fill", KNOWN_TEXT["C07-double-fill"])
+                        else:
+                            failing.append((payload, f"override accepted (no incompatible_override); call with {bad[0]} positionals and keywords {bad[1]}", f"the base definition def m({B.header(e)}) binds the call, the override raises TypeError"))
+                        break
+
     # ---- verdicts
     for payload, obs, exp in failing[:10]:
         rep.violation({"kind": "failing-input", "input": payload, "observed": obs, "expected": exp, "how_to_run": "./check C07 --replay <this file>", "oracle": "CPython executes every call shape (<=3 positionals, <=3 keywords) against both functions"})
@@ -672,6 +860,8 @@ def run(tier: str, replay: str | None = None):
         rep.violation({"kind": "broken-correspondence", "correspondence": "SigAssign.sca with n unnamed positional-only parameters vs CallableValue from Callable[[...], R]", **ca_corr[0]}, no_failing_input=True)
     if ca_e2e_bad and not found:
         rep.violation({"kind": "broken-correspondence", "correspondence": "Callable[...] annotation: type_from_runtime route vs module diagnostics", **ca_e2e_bad[0]}, no_failing_input=True)
+    if hier_corr and not found:
+        rep.violation({"kind": "broken-correspondence", "correspondence": "override check on class hierarchies (incompatible_override) vs Signature.can_assign against every definition in the MRO", **hier_corr[0]}, no_failing_input=True)
     if ov2_corr and not found:
         rep.violation({"kind": "broken-correspondence", "correspondence": "SigAssign.ov_kinds_ok (forall expected overload exists actual overload) vs can_assign on OverloadedSignature", **ov2_corr[0]}, no_failing_input=True)
     if broken_translation and not found:
@@ -682,7 +872,7 @@ def run(tier: str, replay: str | None = None):
         rep.harness_error("specification PyBind.py_bind disagrees with CPython on " + json.dumps(sb))
 
     rep.coverage.update(
-        evaluations=len(pairs) + len(typed) + n_spec + n_ep + n_ov + n_pr + n_ca + n_ca_e2e + n_ov2,
+        evaluations=len(pairs) + len(typed) + n_spec + n_ep + n_ov + n_pr + n_ca + n_ca_e2e + n_ov2 + n_hier,
         distinct_nontrivial=len(distinct),
         rule="a case = (expected signature e, actual signature a): every def-expressible e with <=2 parameters x a sample (thorough: all) of the <=2-parameter signatures over names {a,b,c}; "
         "random e with <=5 parameters paired with an independent random a (1/4) or an edit of e (kind change, default flip, added optional/*args/**kwargs, dropped, renamed or swapped parameter); "
@@ -711,6 +901,10 @@ def run(tier: str, replay: str | None = None):
         callable_annotation_modules=n_ca_e2e,
         callable_annotation_module_mismatches=len(ca_e2e_bad),
         callable_annotation_other_codes=ca_other,
+        hierarchies_checked=n_hier,
+        hierarchy_shapes=hier_hist,
+        hierarchy_mismatches=len(hier_corr),
+        hierarchy_other_codes=hier_other,
         overload_groups=n_ov2,
         overload_groups_accepted=n_ov2_acc,
         overload_mismatches=len(ov2_corr),
